@@ -35,6 +35,7 @@ type ConcWorld struct {
 	ts            *schema.TypeSystem
 	gr            *Graph
 	sel           selector.Selector
+	selDMT        datamodel.Node
 	cfg           *traversal.Config
 	baseline      map[string]string
 	gen           schema.TypedNode // a node of freshly generated code (only in the runner built with the generated package)
@@ -81,6 +82,7 @@ func NewConcWorld() (*ConcWorld, error) {
 	if w.gr, err = BuildGraph(g); err != nil {
 		return nil, err
 	}
+	w.selDMT = SelectorDMT(SelAST{T: "rec", A: []int{-1, -1}, Ss: []SelAST{{T: "union", Ss: []SelAST{{T: "match"}, {T: "all", Ss: []SelAST{{T: "edge"}}}}}}}, w.gr.Links)
 	w.sel, err = selector.CompileSelector(SelectorDMT(SelAST{T: "rec", A: []int{-1, -1}, Ss: []SelAST{{T: "union", Ss: []SelAST{{T: "match"}, {T: "all", Ss: []SelAST{{T: "edge"}}}}}}}, w.gr.Links))
 	if err != nil {
 		return nil, err
@@ -166,7 +168,7 @@ var hconvOption = bindnode.TypedStringConverter(&HConvInner{},
 
 // (bind-plain comes before bind-converter: the sequential reference runs the list twice, so the refusal is seen both
 // before and after the same pair was bound with the converter)
-var ConcOps = []string{"bind-plain", "bind-converter", "read-basic", "read-bind", "read-bind-repr", "deep-equal", "copy", "encode-cbor", "encode-json", "walk", "load",
+var ConcOps = []string{"bind-plain", "bind-converter", "focus-get", "transform", "compile-selector", "read-basic", "read-bind", "read-bind-repr", "deep-equal", "copy", "encode-cbor", "encode-json", "walk", "load",
 	"loadraw", "build-basic", "build-bind", "wrap-explicit", "proto-inferred", "struct-lookup", "ts-clone", "ts-merge"}
 
 func projStr(n datamodel.Node) (string, error) {
@@ -332,6 +334,34 @@ func (w *ConcWorld) Do(op string, g int, fresh *freshStruct) (string, error) {
 			return "", err
 		}
 		return projStr(nb.Build())
+	case "focus-get":
+		n, err := traversal.Progress{Cfg: w.cfg}.Get(w.gr.Root, datamodel.ParsePath("a/a"))
+		if err != nil {
+			return "", err
+		}
+		return projStr(n)
+	case "transform":
+		// a focused transform of a SHARED tree: the result is a new tree, the shared one is only read
+		n, err := traversal.Progress{Cfg: w.cfg}.FocusedTransform(w.gr.Root, datamodel.ParsePath("c/a"),
+			func(_ traversal.Progress, _ datamodel.Node) (datamodel.Node, error) { return basicnode.NewInt(99), nil }, false)
+		if err != nil {
+			return "", err
+		}
+		a, err := projStr(n)
+		if err != nil {
+			return "", err
+		}
+		b, err := projStr(w.gr.Root)
+		return a + " / shared tree still " + b, err
+	case "compile-selector":
+		// compiling from a SHARED selector document, then a matching walk with the private result
+		sel, err := selector.CompileSelector(w.selDMT)
+		if err != nil {
+			return "", err
+		}
+		count := 0
+		err = traversal.Progress{Cfg: w.cfg}.WalkMatching(w.gr.Root, sel, func(traversal.Progress, datamodel.Node) error { count++; return nil })
+		return fmt.Sprintf("%d matches", count), err
 	case "bind-plain":
 		// The Go type HConv holds a Go STRUCT where the schema type HConv has a String: without a converter the pair is
 		// incompatible and the binding must be refused -- whoever else bound the same pair before, and however.
